@@ -312,10 +312,6 @@ def SkipsBlanks (gC : Bytes → Res (Nat × Nat)) : Prop :=
   ∀ bl lex tail : Bytes, blanksOnly bl → IsLexeme lex → (∀ b, tail.head? = some b → isDelimB b = true) →
     gC (bl ++ (lex ++ tail)) = (gC lex).map fun vk => (vk.1, bl.length + vk.2)
 
-/-- the cell conversion converts nothing when it is started at the delimiter `d` -/
-def NoneAtDelim (gC : Bytes → Res (Nat × Nat)) (d : UInt8) : Prop :=
-  ∀ tail : Bytes, ∃ v, gC (d :: tail) = .ok (v, 0)
-
 /-- the contract of `C12_csv_statement` for the cell conversion: exact on a lexeme followed by a delimiter byte,
 end pointer directly behind the lexeme -/
 def CellExact (gC : Bytes → Res (Nat × Nat)) : Prop :=
@@ -328,7 +324,6 @@ structure CellOk (gC : Bytes → Res (Nat × Nat)) (d : UInt8) (cp : CellP) : Pr
   blankDelim : isBlankB d = true → cp.2.1 = [] ∧ cp.2.2 = []
   lex : ∀ lex, cp.1 = some lex → IsLexeme lex
   lead0 : SkipsBlanks gC ∨ cp.2.1 = []
-  empty0 : NoneAtDelim gC d ∨ cp.1 ≠ none
 
 /-- the last cell of the row is not empty -/
 def LastSome : List CellP → Prop
@@ -374,21 +369,35 @@ theorem dropWhile_pad {d : UInt8} {delim : Nat} (hd : d.toNat = delim) {p : Byte
 theorem digit_notCellSpace (b : UInt8) (h : isDigitCharB b = true) : isCellSpaceB b = false := by
   simp [isCellSpaceB, Gen.Parse.isspace, isDigitCharB, Gen.Parse.isdigitchars] at *; omega
 
-/-- a string with a number character in it is not a blank cell -/
-theorem cellSpace_nonempty (s : Bytes) (h : ∃ b ∈ s, isDigitCharB b = true) :
-    (s.dropWhile isCellSpaceB).isEmpty = false := by
-  induction s with
-  | nil => obtain ⟨b, hb, _⟩ := h; simp at hb
-  | cons x s ih =>
-    by_cases hx : isCellSpaceB x = true
-    · simp only [List.dropWhile, hx]
-      apply ih
-      obtain ⟨b, hb, hd⟩ := h
-      simp only [List.mem_cons] at hb
-      rcases hb with rfl | hb
-      · rw [digit_notCellSpace b hd] at hx; cases hx
-      · exact ⟨b, hb, hd⟩
-    · simp [List.dropWhile, hx]
+theorem blank_isCellSpace (b : UInt8) (h : isBlankB b = true) : isCellSpaceB b = true := by
+  simp [isBlankB, Gen.Parse.isblank, isCellSpaceB, Gen.Parse.isspace] at *; omega
+
+/-- the blank-cell guard on a rendered non-empty cell: the skip loop runs over the blanks in front (which are not the
+delimiter) and stops at the first byte of the lexeme, so the cell is converted -/
+theorem csvCellS_lex (gC : Bytes → Res (Nat × Nat)) {d : UInt8} {delim : Nat} (hd : d.toNat = delim)
+    (hdd : isDelimB d = true) (p1 lex tail : Bytes) (hp1 : blanksOnly p1) (hbd : isBlankB d = true → p1 = [])
+    (hlex : IsLexeme lex) :
+    csvCellS gC delim (p1 ++ (lex ++ tail)) = gC ((p1 ++ (lex ++ tail)).takeWhile nonStopB) := by
+  obtain ⟨y, r, hy, hyd⟩ := lex_head hlex
+  have hyne : y ≠ d := by
+    intro e; subst e; rw [delim_notDigit y hdd] at hyd; cases hyd
+  have hynd : notDelimB delim y = true := notDelimB_ne hd hyne
+  have hdw : (p1 ++ (lex ++ tail)).dropWhile (isCellSpaceNotDelimB delim) = y :: (r ++ tail) := by
+    rw [hy]
+    exact dropWhile_append_all _ p1 _ (fun b hb => by
+        have h1 : Gen.Parse.csvNotDelim b.toNat delim = true := notDelimB_ne hd (pad_ne_delim hp1 hbd b hb)
+        simp [isCellSpaceNotDelimB, h1, blank_isCellSpace b (hp1 b hb)])
+      (fun b hb => by
+        simp at hb; subst hb
+        simp [isCellSpaceNotDelimB, digit_notCellSpace y hyd])
+  simp only [csvCellS, hdw, hynd, if_true]
+
+/-- … and on an empty cell in front of the delimiter: the skip loop stops at the delimiter, a missing value -/
+theorem csvCellS_delim (gC : Bytes → Res (Nat × Nat)) {d : UInt8} {delim : Nat} (hd : d.toNat = delim) (R : Bytes) :
+    csvCellS gC delim (d :: R) = .ok (0, 0) := by
+  have h1 : Gen.Parse.csvNotDelim d.toNat delim = false := notDelimB_self hd
+  have h2 : isCellSpaceNotDelimB delim d = false := by simp [isCellSpaceNotDelimB, h1]
+  simp [csvCellS, List.dropWhile, h2, notDelimB_self hd]
 
 theorem cellBytes_some (cp : CellP) (lex : Bytes) (h : cp.1 = some lex) : cellBytes cp = cp.2.1 ++ lex ++ cp.2.2 := by
   simp [cellBytes, h]
@@ -474,7 +483,7 @@ theorem cell_conv {gC : Bytes → Res (Nat × Nat)} (hC : CellExact gC) (p1 lex 
   · simp [(hC lex tail hlex ht).1, hv]
 
 theorem csvCellsS_cell (gC : Bytes → Res (Nat × Nat)) (prm : CsvParam) (fuel : Nat) (s : Bytes) (st : CsvLine)
-    (v k : Nat) (rest : Bytes) (hs : s ≠ []) (hc : csvCellS gC s = .ok (v, k))
+    (v k : Nat) (rest : Bytes) (hs : s ≠ []) (hc : csvCellS gC prm.delim s = .ok (v, k))
     (hr : (s.drop k).dropWhile (notDelimB prm.delim) = rest) :
     csvCellsS gC prm (fuel + 1) s st =
       if rest.isEmpty && (csvUpdate prm st v (k % 18446744073709551616 != 0)).idx == 0 then .error .check
@@ -535,9 +544,8 @@ theorem csvCellsS_line {gC : Bytes → Res (Nat × Nat)} (hC : CellExact gC) (pr
         have hclean : Clean (cp.2.1 ++ (lex ++ cp.2.2)) := by rw [← hline]; exact lineOf_clean hde hd0 _ hok
         obtain ⟨y, r, hy, hyd⟩ := lex_head hlex
         have hne : cp.2.1 ++ (lex ++ cp.2.2) ≠ [] := by rw [hy]; simp
-        have hcell : csvCellS gC (cp.2.1 ++ (lex ++ cp.2.2)) = .ok (x, cp.2.1.length + lex.length) := by
-          unfold csvCellS
-          rw [cellSpace_nonempty _ ⟨y, by rw [hy]; simp, hyd⟩, hclean.takeWhile]
+        have hcell : csvCellS gC prm.delim (cp.2.1 ++ (lex ++ cp.2.2)) = .ok (x, cp.2.1.length + lex.length) := by
+          rw [csvCellS_lex gC hd hdd _ _ _ hcp.lead (fun h => (hcp.blankDelim h).1) hlex, hclean.takeWhile]
           have := cell_conv hC cp.2.1 lex cp.2.2 x k hcp.lead0 hcp.lead hlex
             (by simpa using delim_head hdd hcp.trail [] (Or.inl rfl)) hg
           simpa using this
@@ -559,8 +567,6 @@ theorem csvCellsS_line {gC : Bytes → Res (Nat × Nat)} (hC : CellExact gC) (pr
     | cons cp' rest' =>
       simp only [LastSome] at hl
       have hok' : ∀ x ∈ cp' :: rest', CellOk gC d x := fun x hx => hok x (by simp [hx])
-      have hRclean := lineOf_clean hde hd0 _ hok'
-      have hRdig := lineOf_hasDigit _ hok' hl
       have hnone' : ∀ cv ∈ enumF (csvStep prm st o).col ((cp' :: rest').map (·.1)), cv.2 = none → featP prm cv.1 = true := by
         intro cv hcv
         rw [csvStep_col] at hcv
@@ -574,23 +580,14 @@ theorem csvCellsS_line {gC : Bytes → Res (Nat × Nat)} (hC : CellExact gC) (pr
         have hline : lineOf d (cp :: cp' :: rest') = d :: lineOf d (cp' :: rest') := by
           simp [lineOf, cellBytes_none cp hc]
         rw [hline] at hfuel hlen ⊢
-        have hnd : NoneAtDelim gC d := by
-          rcases hcp.empty0 with h | h
-          · exact h
-          · exact absurd hc h
-        obtain ⟨v0, hv0⟩ := hnd (lineOf d (cp' :: rest'))
-        have hclean : Clean (d :: lineOf d (cp' :: rest')) := by rw [← hline]; exact lineOf_clean hde hd0 _ hok
-        have hcell : csvCellS gC (d :: lineOf d (cp' :: rest')) = .ok (v0, 0) := by
-          unfold csvCellS
-          obtain ⟨b, hb, hbd⟩ := hRdig
-          rw [cellSpace_nonempty _ ⟨b, by simp [hb], hbd⟩, hclean.takeWhile]
-          simpa using hv0
+        -- the guard of fixes/C12-3.diff: the skip loop stops at the delimiter, whatever the conversion would do there
+        have hcell : csvCellS gC prm.delim (d :: lineOf d (cp' :: rest')) = .ok (0, 0) := csvCellS_delim gC hd _
         have hdrop : ((d :: lineOf d (cp' :: rest')).drop 0).dropWhile (notDelimB prm.delim) = d :: lineOf d (cp' :: rest') := by
           simp [notDelimB_self hd]
-        rw [csvCellsS_cell gC prm f _ st v0 0 _ (by simp) hcell hdrop]
+        rw [csvCellsS_cell gC prm f _ st 0 0 _ (by simp) hcell hdrop]
         have hfeat : featP prm st.col = true := hnone (st.col, none) (by simp [enumF, hc]) rfl
-        have hupd : csvUpdate prm st v0 (0 % 18446744073709551616 != 0) = csvStep prm st none :=
-          csvUpdate_absent prm st v0 hfeat
+        have hupd : csvUpdate prm st 0 (0 % 18446744073709551616 != 0) = csvStep prm st none :=
+          csvUpdate_absent prm st 0 hfeat
         rw [hupd]
         simp only [List.isEmpty_cons, Bool.false_and, Bool.false_eq_true, if_false, List.drop_one, List.tail_cons]
         rw [hfold]
@@ -607,10 +604,9 @@ theorem csvCellsS_line {gC : Bytes → Res (Nat × Nat)} (hC : CellExact gC) (pr
           rw [← hline]; exact lineOf_clean hde hd0 _ hok
         obtain ⟨y, r, hy, hyd⟩ := lex_head hlex
         have hne : cp.2.1 ++ (lex ++ (cp.2.2 ++ d :: lineOf d (cp' :: rest'))) ≠ [] := by rw [hy]; simp
-        have hcell : csvCellS gC (cp.2.1 ++ (lex ++ (cp.2.2 ++ d :: lineOf d (cp' :: rest')))) =
+        have hcell : csvCellS gC prm.delim (cp.2.1 ++ (lex ++ (cp.2.2 ++ d :: lineOf d (cp' :: rest')))) =
             .ok (x, cp.2.1.length + lex.length) := by
-          unfold csvCellS
-          rw [cellSpace_nonempty _ ⟨y, by rw [hy]; simp, hyd⟩, hclean.takeWhile]
+          rw [csvCellS_lex gC hd hdd _ _ _ hcp.lead (fun h => (hcp.blankDelim h).1) hlex, hclean.takeWhile]
           exact cell_conv hC cp.2.1 lex _ x k hcp.lead0 hcp.lead hlex
             (delim_head hdd hcp.trail _ (Or.inr ⟨_, rfl⟩)) hg
         have hdrop : ((cp.2.1 ++ (lex ++ (cp.2.2 ++ d :: lineOf d (cp' :: rest')))).drop (cp.2.1.length + lex.length)).dropWhile
@@ -897,7 +893,6 @@ theorem csv_table_rows {conv : Conv} {gR gI gQ : Bytes → Res Nat} {gC : Bytes 
     (hpad : ∀ ps ∈ pads, ∀ p ∈ ps, blanksOnly p.1 ∧ blanksOnly p.2 ∧ (isBlankB d = true → p.1 = [] ∧ p.2 = []))
     (hpw : ∀ z ∈ T.zip pads, z.1.length ≤ z.2.length)
     (hlead : SkipsBlanks gC ∨ ∀ ps ∈ pads, ∀ p ∈ ps, p.1 = [])
-    (hempty : NoneAtDelim gC d ∨ ∀ r ∈ T, ∀ c ∈ r, c ≠ none)
     (hfit : ∀ r ∈ T, CsvRowFits prm r)
     (valss : List (List (Option Nat))) (hv : T.mapM (fun r => r.mapM (cellVal gC)) = .ok valss)
     (hag : AgreeRows (valss.map (csvRowOfVals prm)))
@@ -927,13 +922,10 @@ theorem csv_table_rows {conv : Conv} {gR gI gQ : Bytes → Res Nat} {gC : Bytes 
     · intro cp hcp
       obtain ⟨c1, c2⟩ := List.of_mem_zip hcp
       obtain ⟨p1, p2, p3⟩ := hpad te.2.2 m3 cp.2 c2
-      refine ⟨p1, p2, p3, fun lex hl => t3 cp.1 c1 lex hl, ?_, ?_⟩
-      · rcases hlead with h | h
-        · exact Or.inl h
-        · exact Or.inr (h te.2.2 m3 cp.2 c2)
-      · rcases hempty with h | h
-        · exact Or.inl h
-        · exact Or.inr (h te.1 m1 cp.1 c1)
+      refine ⟨p1, p2, p3, fun lex hl => t3 cp.1 c1 lex hl, ?_⟩
+      rcases hlead with h | h
+      · exact Or.inl h
+      · exact Or.inr (h te.2.2 m3 cp.2 c2)
   · rw [mapM_map']
     simp only
     rw [mapM_congr _ (fun te => te.1.mapM (cellVal gC)) _ (fun te hte => by rw [hfst te hte])]
@@ -987,11 +979,5 @@ theorem gCBlank_exact : CellExact gCBlank := by
   · intro v k hk
     simp [gCBlank, h3, h4, hne] at hk
     exact hk.2.symm
-
-theorem gCBlank_none (d : UInt8) (hdd : isDelimB d = true) (hnb : isBlankB d = false) : NoneAtDelim gCBlank d := by
-  intro tail
-  have : numTok (d :: tail) = [] := by
-    simp [numTok, List.dropWhile, hnb, delim_notDigit d hdd]
-  exact ⟨decVal [], by simp [gCBlank, this]⟩
 
 end DmlcModel.Parse
